@@ -700,3 +700,283 @@ Proof.
   eexists. split; [reflexivity|]. cbn [pt_rels with_rels]. intros H. apply in_map_iff in H as (r & Hr & Hf).
   apply filter_In in Hf as [_ Hf]. rewrite Hr, str_eqb_refl in Hf. discriminate.
 Qed.
+
+(* ------------------------------------------------------------------------------ *)
+(** * A concrete deck: presentation, master, layout and two slides whose part names are out
+      of presentation order (the first listed slide is slide2.xml) *)
+Import Coq.Strings.String.StringSyntax.
+
+Definition wT : tables :=
+  mkT [(asc "png", asc "image/png")]
+      [(asc "rels", asc "application/vnd.openxmlformats-package.relationships+xml"); (asc "xml", asc "application/xml")].
+
+Definition w_ct_pres : str := asc "application/vnd.openxmlformats-officedocument.presentationml.presentation.main+xml".
+Definition rid_ (n : N) : str := Ids.rId_name n.
+
+Definition w_part (name ct : str) (idl : list str) (refs : list (str * str)) (phs : nat) (rels : list relr) : part :=
+  mkP name (baseURI name) ct 0 idl refs [] phs false rels.
+
+Definition wdeck : state :=
+  mkS [ w_part (asc "/ppt/presentation.xml") w_ct_pres [rid_ 2; rid_ 3] [(k_id, rid_ 1)] 0
+          [mkR (rid_ 1) rt_slide_master (TInt 1) None; mkR (rid_ 2) rt_slide (TInt 3) None; mkR (rid_ 3) rt_slide (TInt 4) None];
+        w_part (asc "/ppt/slideMasters/slideMaster1.xml") ct_slide_master [rid_ 1] [] 0
+          [mkR (rid_ 1) rt_slide_layout (TInt 2) None];
+        w_part (asc "/ppt/slideLayouts/slideLayout1.xml") ct_slide_layout [] [] 1
+          [mkR (rid_ 1) rt_slide_master (TInt 1) None];
+        w_part (asc "/ppt/slides/slide2.xml") ct_slide [] [] 0 [mkR (rid_ 1) rt_slide_layout (TInt 2) None];
+        w_part (asc "/ppt/slides/slide1.xml") ct_slide [] [] 0 [mkR (rid_ 1) rt_slide_layout (TInt 2) None] ]
+      [mkR (rid_ 1) rt_office_document (TInt 0) None] 0 (Some (rid_ 1)) false None None.
+
+Lemma wT_ok : tables_ok wT.
+Proof. apply tables_okb_sound. vm_compute. reflexivity. Qed.
+
+Lemma wdeck_inv : Inv wT wdeck.
+Proof. apply invb_sound. vm_compute. reflexivity. Qed.
+
+Definition saved_closed (lz : bool) (T : tables) (s : state) : bool :=
+  match step lz T s Save with
+  | (s1, Saved ph) => closedb s1 ph
+  | _ => false
+  end.
+
+(** with target_ref as a lazyproperty (the code before 5eaa1dfb): save, first access of
+    prs.slides, save -- the second package is not Closed (its Targets are the cached ones);
+    with the property computed on each access the same history is Closed at both saves *)
+Theorem stale_target_regression :
+  exists T s, tables_ok T /\ Inv T s /\
+    saved_closed true T s = true /\
+    saved_closed true T (run true T s [Save; AccessSlides]) = false /\
+    c_targets (fst (step true T (run true T s [Save; AccessSlides]) Save))
+              (save_phys T (fst (step true T (run true T s [Save; AccessSlides]) Save))) = false /\
+    saved_closed false T (run false T s [Save; AccessSlides]) = true.
+Proof.
+  exists wT, wdeck. split; [exact wT_ok|]. split; [exact wdeck_inv|]. vm_compute. repeat split.
+Qed.
+
+(** the notes slide of slide [i]: relationship of type slide from the notes-slide part *)
+Definition notes_slide_rels (s : state) (i : nat) : list relr :=
+  match getp s (st_pres s) with
+  | Some pp =>
+      match nth_error (pt_idl pp) i with
+      | Some rid =>
+          match related_part rid (pt_rels pp) with
+          | Ok sp => match getp s sp with
+                     | Some x => match part_with_reltype rt_notes_slide (pt_rels x) with
+                                 | Ok np => match getp s np with
+                                            | Some nx => filter (fun r => str_eqb (rr_type r) rt_slide) (pt_rels nx)
+                                            | None => []
+                                            end
+                                 | Err _ => []
+                                 end
+                     | None => []
+                     end
+          | Err _ => []
+          end
+      | None => []
+      end
+  | None => []
+  end.
+
+(** the implicit relationship notes slide -> slide is reused by a slide jump from the notes
+    placeholder to that slide and goes away when the jump is cleared; the package stays
+    Closed and the invariant holds, but the notes slide no longer names its slide *)
+Theorem implicit_rel_witness :
+  exists T s, tables_ok T /\ Inv T s /\
+    let s1 := run false T s [AccessNotes 0] in
+    let s2 := run false T s [AccessNotes 0; SetNotesJump 0 0] in
+    let s3 := run false T s [AccessNotes 0; SetNotesJump 0 0; ClearNotesJump 0] in
+    length (notes_slide_rels s1 0) = 1 /\
+    notes_slide_rels s2 0 = notes_slide_rels s1 0 /\      (* no second relationship: the implicit one is reused *)
+    notes_slide_rels s3 0 = [] /\
+    invb T s3 = true /\ saved_closed false T s3 = true.
+Proof.
+  exists wT, wdeck. split; [exact wT_ok|]. split; [exact wdeck_inv|]. vm_compute. repeat split.
+Qed.
+
+(** a jump to another slide goes through a relationship of its own and leaves the implicit one alone *)
+Example implicit_rel_other_slide :
+  let s3 := run false wT wdeck [AccessNotes 0; SetNotesJump 0 1; ClearNotesJump 0] in
+  length (notes_slide_rels s3 0) = 1.
+Proof. vm_compute. reflexivity. Qed.
+
+(** add_movie refused because of its poster frame image keeps the media part and both of its
+    relationships; nothing in the slide refers to them; the invariant still holds *)
+Theorem refused_movie_witness :
+  exists T s v, tables_ok T /\ Inv T s /\ blob_ok T v /\
+    snd (step false T s (AddMovie 0 v PBad)) = Refused ValueErr /\
+    length (st_parts (fst (step false T s (AddMovie 0 v PBad)))) = S (length (st_parts s)) /\
+    invb T (fst (step false T s (AddMovie 0 v PBad))) = true.
+Proof.
+  exists wT, wdeck, (mkB 20 (asc "vid") (asc "video/unknown")).
+  split; [exact wT_ok|]. split; [exact wdeck_inv|]. split.
+  - unfold blob_ok. split; [vm_compute; reflexivity|]. split; [vm_compute; reflexivity|].
+    intros H. vm_compute in H. repeat (destruct H as [H|H]; [discriminate|]). exact H.
+  - vm_compute. repeat split.
+Qed.
+
+(* ------------------------------------------------------------------------------ *)
+(** * Frame facts: how the reached set and the reach-dependent clauses of Inv move *)
+
+Lemma getp_setp_same s p x : p < length (st_parts s) -> getp (setp s p x) p = Some x.
+Proof. intros H. unfold getp, setp. cbn. apply Ids_proofs.set_nth_same. exact H. Qed.
+
+Lemma getp_setp_other s p x q : p <> q -> getp (setp s p x) q = getp s q.
+Proof. intros H. unfold getp, setp. cbn. apply Ids_proofs.set_nth_other. exact H. Qed.
+
+Lemma length_setp s p x : length (st_parts (setp s p x)) = length (st_parts s).
+Proof. unfold setp. cbn. apply Ids_proofs.set_nth_length. Qed.
+
+Lemma getp_app_old s x q : q < length (st_parts s) -> getp (with_parts s (st_parts s ++ [x])) q = getp s q.
+Proof. intros H. unfold getp. cbn. apply nth_error_app1. exact H. Qed.
+
+Lemma getp_app_new s x : getp (with_parts s (st_parts s ++ [x])) (length (st_parts s)) = Some x.
+Proof. unfold getp. cbn. rewrite nth_error_app2 by lia. rewrite Nat.sub_diag. reflexivity. Qed.
+
+Lemma good_part_mono n n' x : n <= n' -> good_part n x -> good_part n' x.
+Proof.
+  intros Hle [H1 H2 H3 H4 H5 H6 H7 H8 H9 H10]. constructor; auto. intros q Hq. specialize (H3 q Hq). lia.
+Qed.
+
+Lemma reachP_dec s : wfg s -> forall p, reachP s p \/ ~ reachP s p.
+Proof.
+  intros Hw p. destruct (iter_pids_spec s Hw) as (Hiff & _).
+  destruct (in_dec Nat.eq_dec p (iter_pids s)) as [H|H]; [left|right]; rewrite <- Hiff; auto.
+Qed.
+
+(** every edge of [s'] from a node that is reached in [s] or lies in [N] leads to such a node *)
+Lemma reach_frame s s' (N : nat -> Prop) :
+  (forall q, In q (int_targets (st_prels s')) -> reachP s q \/ N q) ->
+  (forall p x' q, getp s' p = Some x' -> In q (int_targets (pt_rels x')) ->
+                  (reachP s p \/ N p) -> reachP s q \/ N q) ->
+  forall p, reachP s' p -> reachP s p \/ N p.
+Proof. intros H1 H2 p Hp. induction Hp; eauto. Qed.
+
+Lemma NoDup_map_pairwise {A B} (f : A -> B) l :
+  NoDup l -> (forall a b, In a l -> In b l -> a <> b -> f a <> f b) -> NoDup (map f l).
+Proof.
+  induction 1 as [|x l Hx Hnd IH]; intros Hp; simpl; constructor.
+  - intros Hin. apply in_map_iff in Hin as (y & Hy & Hyl). apply (Hp y x); simpl; auto. intros ->. auto.
+  - apply IH. intros a b Ha Hb. apply Hp; simpl; auto.
+Qed.
+
+Lemma NoDup_map_inj_on {A B} (f : A -> B) l a b :
+  NoDup (map f l) -> In a l -> In b l -> f a = f b -> a = b.
+Proof.
+  induction l as [|x l IH]; simpl; [tauto|]. intros Hnd Ha Hb E. inversion Hnd; subst.
+  destruct Ha as [->|Ha], Hb as [->|Hb]; auto.
+  - exfalso. apply H1. rewrite E. apply in_map. auto.
+  - exfalso. apply H1. rewrite <- E. apply in_map. auto.
+Qed.
+
+Lemma reach_part_iff s : wfg s -> forall p x, reach_part s p x <-> (reachP s p /\ getp s p = Some x).
+Proof. intros Hw p x. unfold reach_part. destruct (iter_pids_spec s Hw) as (Hiff & _). rewrite Hiff. tauto. Qed.
+
+Lemma in_iter_names s : wfg s -> forall n, In n (iter_names s) <-> exists p x, reach_part s p x /\ pt_name x = n.
+Proof.
+  intros Hw n. unfold iter_names. rewrite in_map_iff. destruct (iter_pids_spec s Hw) as (_ & _ & Hlt). split.
+  - intros (p & <- & Hp). destruct (getp_some s p (Hlt p Hp)) as (x & Hx). exists p, x.
+    split; [split; auto|]. symmetry. apply name_of_getp. exact Hx.
+  - intros (p & x & [Hp Hx] & <-). exists p. split; auto. apply name_of_getp. exact Hx.
+Qed.
+
+(** what a part that becomes reached must satisfy *)
+Record new_ok (T : tables) (s : state) (x : part) : Prop := mkNew {
+  nw_fresh : ~ In (pt_name x) (iter_names s);
+  nw_bin : Opc.in_table (t_def T) s_bin (pt_ct x) = false
+}.
+
+(** the reach-dependent clauses of Inv carry over to a state [s'] whose reached parts are
+    reached parts of [s], unchanged in name and content type, or members of the list [N] *)
+Section Transfer.
+Variable T : tables.
+Variables s s' : state.
+Variable N : list nat.
+Hypothesis HT : tables_ok T.
+Hypothesis HI : Inv T s.
+Hypothesis Hw' : wfg s'.
+Hypothesis Hreach : forall p, reachP s' p -> reachP s p \/ In p N.
+Hypothesis Hold : forall p x x', reachP s p -> getp s p = Some x -> getp s' p = Some x' ->
+                                 pt_name x' = pt_name x /\ pt_ct x' = pt_ct x.
+Hypothesis HN : forall n x', In n N -> ~ reachP s n -> getp s' n = Some x' -> new_ok T s x'.
+Hypothesis HNd : forall n m x y, In n N -> In m N -> n <> m -> ~ reachP s n -> ~ reachP s m ->
+                                 getp s' n = Some x -> getp s' m = Some y -> pt_name x <> pt_name y.
+
+Let Hw : wfg s := inv_wfg T s HI.
+
+Lemma tr_old p x' : reachP s' p -> reachP s p -> getp s' p = Some x' ->
+  exists x, getp s p = Some x /\ pt_name x' = pt_name x /\ pt_ct x' = pt_ct x.
+Proof.
+  intros _ Hp Hx'. destruct (iter_pids_spec s Hw) as (Hiff & _ & Hlt).
+  destruct (getp_some s p (Hlt p (proj2 (Hiff p) Hp))) as (x & Hx). exists x. split; auto. eapply Hold; eauto.
+Qed.
+
+Lemma tr_names : NoDup (iter_names s').
+Proof.
+  destruct (iter_pids_spec s' Hw') as (Hiff' & Hnd' & Hlt'). destruct (iter_pids_spec s Hw) as (Hiff & _ & _).
+  unfold iter_names. apply NoDup_map_pairwise; auto.
+  intros a b Ha Hb Hab E. apply Hiff' in Ha, Hb.
+  destruct (getp_some s' a (Hlt' a (proj2 (Hiff' a) Ha))) as (xa & Hxa).
+  destruct (getp_some s' b (Hlt' b (proj2 (Hiff' b) Hb))) as (xb & Hxb).
+  rewrite (name_of_getp s' a xa Hxa), (name_of_getp s' b xb Hxb) in E.
+  assert (Hfresh : forall n m xn xm, reachP s' n -> reachP s' m -> reachP s m -> ~ reachP s n -> getp s' n = Some xn ->
+                     getp s' m = Some xm -> pt_name xn <> pt_name xm).
+  { intros n m xn xm Hn Hm' Hm Hnn Hxn Hxm E'. destruct (Hreach n Hn) as [|HnN]; [contradiction|].
+    destruct (tr_old m xm Hm' Hm Hxm) as (x & Hx & En & _).
+    apply (nw_fresh T s xn (HN n xn HnN Hnn Hxn)). rewrite E', En.
+    apply (in_iter_names s Hw). exists m, x. split; auto. apply (reach_part_iff s Hw). auto. }
+  destruct (reachP_dec s Hw a) as [Ra|Ra], (reachP_dec s Hw b) as [Rb|Rb].
+  - destruct (tr_old a xa Ha Ra Hxa) as (ya & Hya & Ena & _). destruct (tr_old b xb Hb Rb Hxb) as (yb & Hyb & Enb & _).
+    apply Hab. apply (NoDup_map_inj_on (name_of (st_parts s)) (iter_pids s)).
+    + apply (iv_names T s HI).
+    + apply Hiff; auto.
+    + apply Hiff; auto.
+    + rewrite (name_of_getp s a ya Hya), (name_of_getp s b yb Hyb). congruence.
+  - apply (Hfresh b a xb xa); auto.
+  - apply (Hfresh a b xa xb); auto.
+  - destruct (Hreach a Ha) as [|HaN]; [contradiction|]. destruct (Hreach b Hb) as [|HbN]; [contradiction|].
+    apply (HNd a b xa xb); auto.
+Qed.
+
+Lemma tr_clash : clash_free T s'.
+Proof.
+  intros p q x y Hx Hy He Hix Hiy.
+  apply (reach_part_iff s' Hw') in Hx as [Rp Hx]. apply (reach_part_iff s' Hw') in Hy as [Rq Hy].
+  destruct (Opc_proofs.str_eq_dec (pt_ct x) (pt_ct y)) as [|Hne]; auto. exfalso.
+  pose proof (tk_fun T HT _ _ _ Hix (eq_ind_r (fun e => Opc.in_table (t_def T) e (pt_ct y) = true) Hiy He) Hne) as Hbin.
+  assert (Hnew : forall n xn, reachP s' n -> getp s' n = Some xn -> ~ reachP s n ->
+                   Opc.in_table (t_def T) s_bin (pt_ct xn) = true -> False).
+  { intros n xn Rn Hxn Hnn Hin. destruct (Hreach n Rn) as [|HnN]; [contradiction|].
+    rewrite (nw_bin T s xn (HN n xn HnN Hnn Hxn)) in Hin. discriminate. }
+  destruct (reachP_dec s Hw p) as [Ra|Ra], (reachP_dec s Hw q) as [Rb|Rb].
+  - destruct (tr_old p x Rp Ra Hx) as (xa & Hxa & Ena & Eca). destruct (tr_old q y Rq Rb Hy) as (yb & Hyb & Enb & Ecb).
+    apply Hne. rewrite Eca, Ecb. rewrite Ena, Eca in Hix. rewrite Enb, Ecb in Hiy. rewrite Ena, Enb in He.
+    apply (iv_clash T s HI p q xa yb); auto; apply (reach_part_iff s Hw); auto.
+  - apply (Hnew q y Rq Hy Rb). rewrite <- Hbin, He. exact Hiy.
+  - apply (Hnew p x Rp Hx Ra). rewrite <- Hbin. exact Hix.
+  - apply (Hnew p x Rp Hx Ra). rewrite <- Hbin. exact Hix.
+Qed.
+
+Lemma tr_dir (tg tg' : list nat) :
+  (forall p x, reach_part s p x -> baseURI (pt_name x) = s_slides_dir -> In p tg) -> incl tg tg' ->
+  (forall n x', In n N -> ~ reachP s n -> getp s' n = Some x' -> baseURI (pt_name x') = s_slides_dir -> In n tg') ->
+  forall p x', reach_part s' p x' -> baseURI (pt_name x') = s_slides_dir -> In p tg'.
+Proof.
+  intros H1 H2 H3 p x' Hx Hd. apply (reach_part_iff s' Hw') in Hx as [Rp Hx].
+  destruct (reachP_dec s Hw p) as [Ra|Ra].
+  - destruct (tr_old p x' Rp Ra Hx) as (x & Hxx & En & _). apply H2. apply (H1 p x).
+    + apply (reach_part_iff s Hw). auto.
+    + rewrite <- En. exact Hd.
+  - destruct (Hreach p Rp) as [|HpN]; [contradiction|]. eapply H3; eauto.
+Qed.
+
+Lemma tr_name_in nm : In nm (iter_names s') ->
+  In nm (iter_names s) \/ exists n x', In n N /\ ~ reachP s n /\ getp s' n = Some x' /\ pt_name x' = nm.
+Proof.
+  intros H. apply (in_iter_names s' Hw') in H as (p & x' & Hx & En).
+  apply (reach_part_iff s' Hw') in Hx as [Rp Hx].
+  destruct (reachP_dec s Hw p) as [Ra|Ra].
+  - left. destruct (tr_old p x' Rp Ra Hx) as (x & Hxx & En' & _). apply (in_iter_names s Hw).
+    exists p, x. split; [apply (reach_part_iff s Hw); auto|congruence].
+  - right. destruct (Hreach p Rp) as [|HpN]; [contradiction|]. exists p, x'. auto.
+Qed.
+End Transfer.
